@@ -86,10 +86,13 @@ def version_wellformed(chars):
 def _version_ok(chars, num):
     acc = rx.ends(rx.seq(rx.star(rx.cls(is_ws)), num, rx.opt(rx.seq(rx.ch("."), num))), chars)
     alts = []
+    ev = lambda c: c.e if hasattr(c, "e") else z3.BitVecVal(c, 32)
     for p, a in enumerate(acc):
         if p < len(chars):
-            e = chars[p].e if hasattr(chars[p], "e") else z3.BitVecVal(chars[p], 32)
-            alts.append(z3.And(a, z3.Or(e == ord(";"), is_ws(e))))
+            e = ev(chars[p])
+            # the number ends at `;`, at whitespace or at a comment (`//`, `/*`)
+            comment = z3.And(e == ord("/"), z3.Or(ev(chars[p + 1]) == ord("/"), ev(chars[p + 1]) == ord("*"))) if p + 1 < len(chars) else z3.BoolVal(False)
+            alts.append(z3.And(a, z3.Or(e == ord(";"), is_ws(e), comment)))
     return z3.Or(alts) if alts else z3.BoolVal(False)
 
 
@@ -108,7 +111,7 @@ KEYWORDS = {
     "int": "INT_TY", "stretch": "STRETCH_TY", "uint": "UINT_TY",
 }
 # words that are keyword-like in the front end's table but are produced by dedicated lexer rules
-SPECIAL_WORDS = {"pragma": "PRAGMA_KW", "dim": "DIM_KW"}
+SPECIAL_WORDS = {"pragma": "PRAGMA_KW"}       # (`dim` alone is an identifier: the keyword is `#dim`)
 # ('#' is not a lexeme of its own in OpenQASM 3: it only introduces `#pragma` / `#dim`)
 PUNCT = {
     "!": "BANG", "$": "DOLLAR", "%": "PERCENT", "&": "AMP", "(": "L_PAREN", ")": "R_PAREN", "*": "STAR", "+": "PLUS", ",": "COMMA",
@@ -148,7 +151,9 @@ def lexeme_classes():
                                                         (4 + len(u), rx.seq(DIG, rx.ch("."), rx.anyof("eE"), DIG, rx.lit(u)))])
     C["bit_string"] = (["BIT_STRING"], [(3, rx.seq(rx.ch('"'), BIN, rx.ch('"'))), (5, rx.seq(rx.ch('"'), BIN, rx.ch("_"), BIN, rx.ch('"'))),
                                         (4, rx.seq(rx.ch("'"), BIN, BIN, rx.ch("'")))])
-    C["string"] = (["STRING"], [(3, rx.seq(rx.ch('"'), NOT01_, rx.ch('"'))), (4, rx.seq(rx.ch('"'), STRCHAR, NOT01_, rx.ch('"'))), (3, rx.seq(rx.ch("'"), NOT01_, rx.ch("'")))])
+    # BitstringLiteral: '"' ([01] '_'?)* [01] '"' - a quoted text that starts or ends with an underscore (or is one) is a string, not a bit string
+    C["string"] = (["STRING"], [(3, rx.seq(rx.ch('"'), NOT01_, rx.ch('"'))), (4, rx.seq(rx.ch('"'), STRCHAR, NOT01_, rx.ch('"'))), (3, rx.seq(rx.ch("'"), NOT01_, rx.ch("'"))),
+                                (3, rx.lit('"_"')), (4, rx.seq(rx.ch('"'), BIN, rx.lit('_"'))), (4, rx.seq(rx.lit('"_'), BIN, rx.ch('"')))])
     for w, k in KEYWORDS.items():
         if w != "OPENQASM":
             C["kw_" + w] = ([k], [(len(w), rx.lit(w))])
@@ -165,6 +170,17 @@ def line_classes():
     C["pragma_line"] = (["PRAGMA"], [(9, rx.seq(rx.lit("pragma "), NOTNL, NOTNL)), (10, rx.seq(rx.lit("#pragma "), NOTNL, NOTNL))])
     C["annotation_line"] = (["ANNOTATION"], [(2, rx.seq(rx.ch("@"), rx.rng("a", "z"))), (5, rx.seq(rx.ch("@"), rx.rng("a", "z"), rx.ch(" "), NOTNL, NOTNL))])
     C["line_comment"] = ([], [(2, rx.lit("//")), (4, rx.seq(rx.lit("//"), NOTNL, NOTNL))])
+    return C
+
+
+def other_classes():
+    """block comments and the version header (C15 names both).  `BlockComment: '/*' .*? '*/'` - the comment ends at the FIRST `*/`, block
+    comments do not nest; `VersionSpecifier: [0-9]+ ('.' [0-9]+)?` after `OPENQASM` and whitespace."""
+    C = {}
+    # two body characters that cannot close the comment early: the first from { '/', ' ', 'a' }, the second from { '*', ' ', 'a' }
+    # (so the body may be `/*`, the start of what a nesting lexer takes for an inner comment)
+    C["block_comment"] = ([], [(4, rx.lit("/**/")), (6, rx.seq(rx.lit("/*"), rx.anyof("/ a"), rx.anyof("* a"), rx.lit("*/")))])
+    C["version_header"] = (["VERSION_STRING"], [(10, rx.seq(rx.lit("OPENQASM "), DIG)), (12, rx.seq(rx.lit("OPENQASM "), DIG, rx.ch("."), DIG)), (13, rx.seq(rx.lit("OPENQASM  "), DIG, rx.ch("."), DIG))])
     return C
 
 
